@@ -1,4 +1,5 @@
 import Dhlldv.Lemmas.Envelope
+import Dhlldv.Lemmas.FixedBedDomain
 
 /-! # C02 — all public results are finite real numbers on the engineering envelope
 "Finite real" on ℝ is read as: every primitive is applied inside its real domain (positive argument of `log`, non-negative base of a
@@ -89,6 +90,34 @@ theorem C02_pseudo_dlim (h : InE vls Dp d eps nu rhol rhos Cv) :
       (Cst.stk_fine : ℝ) * 9 * rhol * nu * Dp / (rhos * 7.5 * Dp ^ (0.4 : ℝ)) := by norm_num
   rw [e]
   exact Real.rpow_pos_of_pos hq _
+
+/-- fixed-bed force balance (the model behind the stationary-deposit limit and the fixed-bed regime), in-situ concentration up to 0.45 of a bed packed
+at 0.6: the bed half-angle lies in (0, 2.5) rad, so free area, both perimeters above the bed and the hydraulic diameter are positive divisors; the
+velocity above the bed is at least the line speed and its Reynolds number at least 1296; the arguments of both friction logarithms lie strictly
+between 0 and 1 (non-zero squared logarithm as divisor); both bases of the sheet-flow powers are positive; all three friction factors and the
+pressure loss are positive; the two remaining divisors ρl·g and Rsd·Cvs are non-zero -/
+theorem C02_fixed_bed (h : InE vls Dp d eps nu rhol rhos Cv) :
+    (0 < stratified.beta Cv ∧ stratified.beta Cv < 2.5) ∧ FBGeom Dp Cv ∧ FBFlow vls Dp d eps nu Cv ∧
+    (let DH1 := 4 * (stratified.areas Dp Cv).2.1 / ((stratified.perimeters Dp Cv).2.1 + (stratified.perimeters Dp Cv).2.2.1)
+     let v1 := vls * (stratified.areas Dp Cv).1 / (stratified.areas Dp Cv).2.1
+     let Re := v1 * DH1 / nu
+     (0 < 0.27 * eps / DH1 + 5.75 / Re ^ (0.9:ℝ) ∧ 0.27 * eps / DH1 + 5.75 / Re ^ (0.9:ℝ) < 1) ∧
+     (0 < 0.27 * d / DH1 + 5.75 / Re ^ (0.9:ℝ) ∧ 0.27 * d / DH1 + 5.75 / Re ^ (0.9:ℝ) < 1) ∧
+     0 < stratified.lambda1 DH1 v1 eps nu ∧ 0 < stratified.lambda12 DH1 d v1 0.0 nu ∧
+     (0 < 2.0 * (Cst.gravity : ℝ) * DH1 * ((rhos - rhol) / rhol) ∧ 0 < rhos * (Real.pi / 6.0) * d ^ 3 / rhol ∧
+       0 < stratified.lambda12_sf DH1 d v1 0.0 eps nu rhol rhos)) ∧
+    0 < stratified.fb_pressure_loss vls Dp d eps nu rhol rhos Cv ∧
+    rhol * (Cst.gravity : ℝ) ≠ 0 ∧ (rhos - rhol) / rhol * Cv ≠ 0 := by
+  have g := fb_geom h
+  have f := fb_flow h
+  have hg : (0:ℝ) < Cst.gravity := by unfold Cst.gravity; norm_num
+  have hl := h.rhol_pos; have hR := h.Rsd_pos; have hc := h.Cv_pos
+  have hv1 : 0 < vls * (stratified.areas Dp Cv).1 / (stratified.areas Dp Cv).2.1 := lt_of_lt_of_le h.vls_pos f.v1_ge
+  refine ⟨beta_range_on_E Cv h.Cv_pos h.Cv_hi, g, f, ?_, fb_pressure_loss_pos h, by positivity, by positivity⟩
+  intro DH1 v1 Re
+  exact ⟨log_arg_ok _ _ f.c1_wall.1 (le_trans f.c1_wall.2 (by norm_num)) f.Re_ge, log_arg_ok _ _ f.c1_bed.1 f.c1_bed.2 f.Re_ge,
+    lambda1_pos _ _ eps nu f.c1_wall f.Re_ge, lambda12_pos _ d _ nu f.c1_bed f.Re_ge,
+    lambda12_sf_pos _ d _ eps nu rhol rhos f.DH1_pos h.d_pos hv1 hl h.rhos_gt f.c1_wall f.Re_ge⟩
 
 end
 
